@@ -592,7 +592,13 @@ SpanRef<const T> mono_extend(MonotonicBuffer<T> &cur, SpanRef<const T> original,
 }
 
 Circuit &Circuit::operator+=(const Circuit &other) {
+    std::vector<CircuitInstruction> self_ops;
     SpanRef<const CircuitInstruction> ops_to_add = other.operations;
+    if (&other == this) {
+        // Snapshot the instruction list: fusing modifies the last instruction and inserting may reallocate.
+        self_ops = operations;
+        ops_to_add = self_ops;
+    }
     if (!operations.empty() && !ops_to_add.empty() && operations.back().can_fuse(ops_to_add[0])) {
         operations.back().targets = mono_extend(target_buf, operations.back().targets, ops_to_add[0].targets);
         ops_to_add.ptr_start++;
